@@ -23,8 +23,8 @@ var signedKinds = map[Kind]bool{KInt: true, KInt8: true, KInt16: true, KInt32: t
 var (
 	AllArgKinds = []Kind{KString, KStringPtr, KStringSlice, KInt, KInt8, KInt16, KInt32, KInt64, KUint, KUint8, KUint16,
 		KUint32, KUint64, KIntSlice, KIntPtr, KUint8Slice, KFloat32, KFloat64, KFloatSlice, KDuration, KDurSlice, KDurPtr, KMapSS, KMapSI, KMapIS, KMapFS,
-		KUpper, KUpperSlice, KTri, KValid, KLvl}
-	FlagKinds = []Kind{KBool, KBoolSlice, KBoolPtr}
+		KUpper, KUpperSlice, KTri, KValid, KLvl, KMapSB}
+	FlagKinds = []Kind{KBool, KBoolSlice, KBoolPtr, KToggle}
 	FuncKinds = []Kind{KFunc0, KFuncS, KFuncI, KFunc0E, KFuncSE, KFuncSS}
 	AllKinds  = append(append(append([]Kind{}, AllArgKinds...), FlagKinds...), FuncKinds...)
 )
